@@ -85,6 +85,22 @@ func (x *g) genMultipart(sv *spec.Service, m *spec.Method, hasBody bool, verb st
 	if len(h.Cookies) > 0 {
 		x.s.AddFeature("multipart-with-cookie")
 	}
+	// a required string attribute NAMED body, carried by a header: the names goa's own plumbing uses for the request
+	// body must not decide which decoded elements are merged into the payload
+	if m.Payload.Type.Kind == spec.Object && mr.Chance(1, 2) {
+		taken := false
+		for _, a := range rt.Attrs {
+			if spec.Norm(a.Name) == "body" {
+				taken = true
+			}
+		}
+		if !taken {
+			rt.Attrs = append(rt.Attrs, &spec.Attr{Name: "body", Type: &spec.Type{Kind: spec.String}})
+			rt.Required = append(rt.Required, "body")
+			h.Headers = append(h.Headers, spec.Loc{Attr: "body", Wire: "X-Mp-Body"})
+			x.s.AddFeature("header", "multipart-attribute-named-body")
+		}
+	}
 }
 
 // holdsUnion reports whether a value of type t can hold a OneOf attribute.
